@@ -79,6 +79,17 @@ fn case_strategy(tier: Tier) -> BoxedStrategy<Case> {
             let mut lines: Vec<Vec<u8>> = vec![];
             let mut k = 0usize;
             let mut seen = std::collections::BTreeSet::new();
+            // sometimes two files share their last path component
+            let mut files = files;
+            if shuffle[0] % 3 == 0 && m::classify(&files[0].name) == Kind::Distfile {
+                let twin = [b"twin-dir/".to_vec(), m::basename(&files[0].name).to_vec()].concat();
+                if m::unambiguous(&twin) {
+                    let mut t = files[0].clone();
+                    t.name = twin;
+                    t.checksums.reverse();
+                    files.insert(1, t);
+                }
+            }
             // per-file line runs (checksums in order, the size line at a random place of the run)
             let mut runs: Vec<Vec<Vec<u8>>> = vec![];
             for f in &files {
